@@ -925,3 +925,42 @@ fn block_with_a_malformed_golden_ticket_is_refused() {
         Err(_) => { use std::io::Write; let _ = writeln!(std::io::stderr(), "WITNESS: adding a block with a malformed golden-ticket payload did not return (the node aborted)"); panic!("scenario did not finish"); }
     }
 }
+
+/// C03/C05: the id a block is filed under is its height. An otherwise ordinary child of the tip that claims another id
+/// (re-signed by its producer) is never adopted: whatever id it claims, afterwards the by-height index, the reported tip
+/// and the spendable outputs still describe the chain of ancestors of the tip
+#[tokio::test]
+#[serial_test::serial]
+async fn block_claiming_another_height_than_its_parents_plus_one_is_refused() {
+    let mut rng = Rng::from_env();
+    let mut claims: Vec<u64> = vec![1, 2, 4, 7, 200, 201, 202, 301, u64::MAX];
+    for _ in 0..3 { claims.push(4 + rng.below(400)); }
+    for claimed in claims {
+        let mut t = TestManager::default();
+        t.initialize(100, 200_000_000_000_000).await;
+        let (g1, ts) = { let bc = t.blockchain_lock.read().await; let b = bc.get_latest_block().unwrap(); (b.hash, b.timestamp) };
+        let mut b2 = t.create_block(g1, ts + 120000, 1, 1000, 0, true).await; b2.generate().unwrap(); let b2h = b2.hash;
+        t.add_block(b2).await;
+        let mut x = t.create_block(b2h, ts + 240000, 1, 1000, 0, false).await;
+        let before = ledger_snapshot(&t, 3).await;   // (building the block has reserved the wallet outputs it spends)
+        assert_eq!(x.id, 3, "harness: the honest child of block 2 has id 3");
+        x.id = claimed;
+        x.merkle_root = [0; 32];
+        x.generate().unwrap();
+        { let w = t.wallet_lock.read().await; x.sign(&w.private_key); }
+        x.generate().unwrap();
+        let xh = x.hash;
+        let _ = t.add_block(x).await;
+        let mut after = ledger_snapshot(&t, 3).await;
+        after.stored = before.stored;
+        after.flags.retain(|(h, _)| *h != xh);
+        if after != before {
+            let bc = t.blockchain_lock.read().await;
+            let what = if after.tip != before.tip { "tip" } else if after.ring_tip != before.ring_tip { "index tip" } else if after.chain != before.chain { "by-height index" }
+                else if after.flags != before.flags { "on-chain flags" } else if after.spendable != before.spendable { "spendable outputs" } else { "wallet" };
+            witness(format!("chain G1<-B2; a child of B2 that claims id {} (signed by its producer) was offered ({} differ): ring tip {:?}→{:?}, wallet {:?}→{:?}, tip {:?}→{:?}, by-height index 1..3 {:?}→{:?}, spendable outputs {}→{}, genesis block still stored: {}",
+                claimed, what, before.ring_tip.0, after.ring_tip.0, before.wallet, after.wallet, before.tip.0, after.tip.0, before.chain.iter().map(|h| h.is_some()).collect::<Vec<_>>(), after.chain.iter().map(|h| h.is_some()).collect::<Vec<_>>(),
+                before.spendable.len(), after.spendable.len(), bc.blocks.contains_key(&g1)));
+        }
+    }
+}
